@@ -168,6 +168,10 @@ def replace_data_control_flow(ob):
         ob.check(f"replace_data/{modname}/raise-precedes-first-store", not raises_after, raises_after)
 
 
+SIBLINGS = [("rotateZ", lambda v: v.rotateZ(0.3)), ("scale2D", lambda v: v.scale2D(2)), ("neg2D", lambda v: v.neg2D), ("to_Vector4D", lambda v: v.to_Vector4D()),
+            ("to_Vector3D", lambda v: v.to_Vector3D()), ("rotateX", lambda v: v.rotateX(0.2)), ("to_xy", lambda v: v.to_xy()), ("to_rhophi", lambda v: v.to_rhophi())]
+
+
 def sympy_part(ob):
     import sympy
     import vector
@@ -202,6 +206,24 @@ def sympy_part(ob):
                 for g, obj_ in slots.items():
                     if g != GROUP[name]:
                         ob.check(f"sympy/setter/{spelled}/other-group-untouched/{g}{sid}", getattr(v, g) is obj_)
+                # frame of the setter: it writes the receiver's own state only - a vector derived earlier from the receiver (results may share
+                # coordinate objects with their operands) keeps every stored coordinate, and so does the operand when the derived vector is assigned to
+                for dname, derive in SIBLINGS:
+                    try:
+                        v0 = mk()
+                        w0 = derive(v0)
+                        if w0 is v0:
+                            continue
+                        for tgt, other, who in ((w0, v0, "operand"), (v0, w0, "derived")):
+                            if not hasattr(type(tgt), spelled):
+                                continue
+                            pre = [(type(getattr(other, g)).__name__, tuple(getattr(other, g).elements)) for g in ("azimuthal", "longitudinal", "temporal") if hasattr(other, g)]
+                            setattr(tgt, spelled, new)
+                            post = [(type(getattr(other, g)).__name__, tuple(getattr(other, g).elements)) for g in ("azimuthal", "longitudinal", "temporal") if hasattr(other, g)]
+                            ob.check(f"sympy/setter/{spelled}/{who}-of-{dname}-unchanged{sid}", pre == post, dict(before=str(pre)[:200], after=str(post)[:200]))
+                            v0 = mk(); w0 = derive(v0)
+                    except Exception:
+                        continue
             sympy_inplace(lambda oid, ok, d=None: ob.check(oid, ok, d), cls, s1, mom)
 
 
